@@ -268,14 +268,21 @@ pub fn eval(e: &Expr, s: &MStore) -> Ev {
     Expr::Call(f, args) => {
       let mut vals = vec![];
       for a in args { match eval(a, s) { Ev::Val(v) => vals.push(v), other => return other } }
+      if f == "mutm" {
+        // writes 99 into element 1 of a mutable copy of its f64 matrix argument and returns the copy
+        return match vals.as_slice() {
+          [SV::Mat(ek, r, c, d)] if ek == "f64" && !d.is_empty() => { let mut d2 = d.clone(); d2[0] = SV::f64(99.0); Ev::Val(SV::Mat(ek.clone(), *r, *c, d2)) }
+          _ => Ev::Unsure,
+        };
+      }
       let all_f64 = vals.iter().all(|v| matches!(v, SV::F64(_)));
-      let arity = match f.as_str() { "inc" | "bad" | "shadow" => 1, "addtwo" => 2, _ => return Ev::Unsure };
+      let arity = match f.as_str() { "inc" | "bad" | "shadow" | "mut" => 1, "addtwo" => 2, _ => return Ev::Unsure };
       if vals.len() != arity { return Ev::Fail("function-arity".into()); }
       if vals.iter().any(|v| matches!(v, SV::Str(_) | SV::Bool(_))) { return Ev::Fail("function-arg-kind".into()); }
       if !all_f64 { return Ev::Unsure; }
       let x = |i: usize| vals[i].as_f64().unwrap();
       match f.as_str() {
-        "inc" => Ev::Val(SV::f64(x(0) + 1.0)),
+        "inc" | "mut" => Ev::Val(SV::f64(x(0) + 1.0)),
         "addtwo" => Ev::Val(SV::f64((x(0) + 0.0) + x(1))), // the body's own order: p := x + 0; z := p + y (matters for -0.0)
         // binds its input and a local, then fails on an undefined variable
         "bad" => Ev::Fail("function-body-fails".into()),
